@@ -424,6 +424,13 @@ V("s-front-repeated-point", "silent", ["C17", "C19"], CRV, "    results: list[di
   "    results: list[dict[str, int]] = []\n    seen = set()\n    while opt.check() == z3.sat:\n        values = _int_values(opt.model())\n        point = tuple(values.get(v) for v in minimize_vars)\n        if point in seen:\n            break\n        seen.add(point)\n        results.append(values)\n",
   note="the other repair: stop at a repeated point")
 V("f-front-cap-off-by-one", "fire", ["C17"], CRV, "        if max_solutions is not None and len(results) >= max_solutions:\n            break\n\n    return results", "        if max_solutions is not None and len(results) > max_solutions:\n            break\n\n    return results")
+V("f-cinf-encoding-break", "fire", ["C05", "C17"], CI, "                # impact is unconstrained (a minimum over no sums would be unsatisfiable)\n                continue\n", "                # impact is unconstrained (a minimum over no sums would be unsatisfiable)\n                break\n",
+  note="campaign 5: an unfalsifiable conditional ends the loop: the conditionals after it get no constraint")
+V("f-crev-encoding-break", "fire", ["C19"], CRV, "            # are (a minimum over no terms would make the system unsatisfiable)\n            continue\n", "            # are (a minimum over no terms would make the system unsatisfiable)\n            break\n")
+V("f-crev-compile-alt-break", "fire", ["C19"], CRV, "            if not v_dict and not f_dict:\n                continue\n", "            if not v_dict and not f_dict:\n                break\n")
+V("f-save-skip-first-attr", "fire", ["C20"], PO, "        for attr in non_picklable_attrs:\n            if hasattr(self, attr):\n                non_picklable_backups[attr]", "        for attr in non_picklable_attrs[1:]:\n            if hasattr(self, attr):\n                non_picklable_backups[attr]",
+  note="campaign 5: the optimiser stays attached and is pickled along")
+V("s-getstate-no-copy", "silent", ["C20"], PO, "        return self.__dict__.copy()\n", "        return self.__dict__\n", note="what the default __getstate__ does")
 
 
 def main():
